@@ -19,13 +19,20 @@ Check(name, c) == IF c THEN TRUE ELSE PrintT(<<"FAIL", tid, l, name>>)
 T  == Traces[tid]
 Ev == T.ev[l]
 TInit == tid \in 1..Len(Traces) /\ l = 1
+(* [t |-> "finite", nf (number of non-finite values among the density / coherence / transfer-function attributes of a FINITE     *)
+(*  record: all-zero, constant, identical channels, ramps, vanishing windows, single bins of length 1..3), pc (number of          *)
+(*  non-finite error bars at bins of positive coherence), lmin (harness: the coarse plan reached a bin of length 2: 1/0)]          *)
 Step ==
     /\ l <= Len(T.ev)
-    /\ LET e == Ev  i == [layout |-> e.layout, dtype |-> e.dtype, mem |-> e.mem] IN
-       /\ Check("C13:caller_array_left_untouched", e.changed = 0)
-       /\ Check("C13:non_finite_samples_treated_as_zeros", e.abad = 0 /\ e.zeroed = 1)
-       /\ Check("C13:buffer_ownership_as_modelled", (e.shares = 1) <=> (e.nbad = 0 /\ AliasesOf(i)))
-       /\ Check("C13:no_shared_buffer_when_sanitising", e.nbad = 0 \/ e.shares = 0)
+    /\ IF "t" \in DOMAIN Ev /\ Ev.t = "finite"
+       THEN /\ Check("C13:finite_input_gives_finite_estimates", Ev.nf = 0)
+            /\ Check("C13:error_bars_finite_where_coherence_is_positive", Ev.pc = 0)
+            /\ Check("ANY:harness_plan_reaches_a_length_2_segment", Ev.lmin = 1)
+       ELSE LET e == Ev  i == [layout |-> e.layout, dtype |-> e.dtype, mem |-> e.mem] IN
+            /\ Check("C13:caller_array_left_untouched", e.changed = 0)
+            /\ Check("C13:non_finite_samples_treated_as_zeros", e.abad = 0 /\ e.zeroed = 1)
+            /\ Check("C13:buffer_ownership_as_modelled", (e.shares = 1) <=> (e.nbad = 0 /\ AliasesOf(i)))
+            /\ Check("C13:no_shared_buffer_when_sanitising", e.nbad = 0 \/ e.shares = 0)
     /\ l' = l + 1 /\ UNCHANGED <<tid, inp, pc, view, abuf, callerBad, analyzerBad>>
 TSpec == (TInit /\ inp = [layout |-> "1d"] /\ pc = "trace" /\ view = "none" /\ abuf = "none" /\ callerBad = {} /\ analyzerBad = {}) /\ [][Step]_<<tvars, vars>>
 Done == (l = Len(T.ev) + 1) => PrintT(<<"OK", tid>>)
